@@ -30,9 +30,12 @@ type extraResult struct {
 	Samples []interface{}
 	Viols   []Viol
 	Info    map[string]interface{}
+	NotExhaustive string // non-empty: reason why the enumeration is not complete
 }
 
 type propSpec struct {
+	// LooseReplay: the violated invariant IS nondeterminism, so a replay need only reproduce the invariant once in three runs
+	LooseReplay bool
 	Extra   func(thorough bool) (extraResult, error)
 	Checker func() Checker
 	Runs    []runSpec
@@ -92,6 +95,12 @@ func init() {
 		"bounded: all single boundary values and all pairs (thorough: arithmetic triples) of the limit dimensions; stored-state predicate on every reachable state of S-life"},
 		Extra: CheckAdmissionGrid,
 		Runs:  []runSpec{{"S-life", 4, 5, nil}}}
+	props["C07"] = propSpec{Checker: func() Checker { return chkC07{} }, Assume: []string{
+		"map iteration order is the only in-process nondeterminism a handler can observe besides what the context provides (height, store); clocks and randomness are not read by the akash handlers",
+		"for maps with at most 8 entries (one bucket) the 8 start offsets are ALL possible iteration orders; iterations over multi-bucket maps are counted and make the run non-exhaustive",
+		"bounded: S-attr (attestation merges with up to 3 keys), S-life and S-escrow to the stated depth"},
+		Extra: c07Extra, LooseReplay: true,
+		Runs:  []runSpec{{"S-attr", 5, 7, nil}, {"S-life", 3, 4, nil}, {"S-escrow", 3, 4, nil}}}
 	props["C03"] = propSpec{Checker: func() Checker { return chkC03{} }, Assume: common,
 		Runs: []runSpec{{"S-escrow", 5, 7, nil}, {"S-leased", 5, 6, nil}, {"S-life", 4, 6, nil}}}
 	props["C04"] = propSpec{Checker: func() Checker { return chkC04{} }, Assume: common,
@@ -222,6 +231,13 @@ func main() {
 		tot.Transitions += er.Evals
 		samples = append(samples, er.Samples...)
 		extraInfo = er.Info
+		if er.NotExhaustive != "" {
+			tot.Exhaustive = false
+			if extraInfo == nil {
+				extraInfo = map[string]interface{}{}
+			}
+			extraInfo["not_exhaustive_because"] = er.NotExhaustive
+		}
 		seen := map[string]bool{}
 		for _, v := range er.Viols {
 			if seen[v.Inv+"|"+v.Sig] {
@@ -268,11 +284,14 @@ func main() {
 			}
 			log = lg
 			for _, v := range vs {
-				if v.Inv == f.Viol.Inv && v.Sig == f.Viol.Sig {
+				if v.Inv == f.Viol.Inv && (v.Sig == f.Viol.Sig || ps.LooseReplay) {
 					okc++
 					break
 				}
 			}
+		}
+		if ps.LooseReplay && okc > 0 {
+			okc = 3
 		}
 		if okc != 3 {
 			fmt.Fprintf(os.Stderr, "chainmc: violation %s|%s did not reproduce on replay (%d/3): harness nondeterminism\n", f.Viol.Inv, f.Viol.Sig, okc)
